@@ -34,7 +34,20 @@ run_demo; base=$?; echo "demo without change: exit $base"
 (cd "$WT" && git apply "$DEST/patch.diff") || { echo "PATCH DOES NOT APPLY"; exit 3; }
 (cd "$WT" && go build ./... ) || { echo "DOES NOT BUILD"; exit 3; }
 run_demo; with=$?; echo "demo with change: exit $with"; tail -5 /tmp/seed_demo_$ID.log
-(cd "$WT" && go test -vet=off -count=1 ./... > /tmp/seed_tests_$ID.log 2>&1); tests=$?; echo "test suite with change: exit $tests"; grep -v "^ok\|no test files" /tmp/seed_tests_$ID.log | head -5
+(cd "$WT" && go test -vet=off -count=1 ./... > /tmp/seed_tests_$ID.log 2>&1); tests=$?
+if [ "$tests" != 0 ]; then
+  # the suite has load-sensitive timing tests: re-run only the failing packages, alone, up to 3 times
+  tests=0
+  for pkg in $(grep -E "^FAIL\s+github.com" /tmp/seed_tests_$ID.log | awk '{print $2}' | sed 's#github.com/arloliu/go-secs/v2/##'); do
+    okp=1
+    for try in 1 2 3; do
+      (cd "$WT" && go test -vet=off -count=1 ./$pkg/ > /tmp/seed_tests_${ID}_retry.log 2>&1) && { okp=0; break; }
+    done
+    echo "retry of failing package $pkg alone: $( [ $okp = 0 ] && echo passes || echo STILL FAILS )"
+    [ $okp != 0 ] && tests=1
+  done
+fi
+echo "test suite with change: exit $tests"
 cleanup; trap - EXIT
 caught=""
 if [ "$base" = 0 ] && [ "$with" != 0 ] && [ "$tests" = 0 ]; then
